@@ -47,6 +47,7 @@ type Case struct {
 	FailGet   []int // injected storage faults (vk backend)
 	FailDel   []int
 	Conn      bool `json:",omitempty"` // all requests are served by one recycled RequestCtx (one keep-alive connection shared by the clients, as behind a proxy)
+	OwnEH     bool `json:",omitempty"` // Config.ErrorHandler is the application's own and answers 403 itself (returns nil)
 	ProtoCaps bool `json:",omitempty"` // the proxy in front announces https in capitals (X-Forwarded-Proto: HTTPS)
 	SessNoMW  bool `json:",omitempty"` // session backend without the session middleware in the chain (csrf loads and saves the session through the store itself)
 	Ops       []Op
@@ -110,6 +111,10 @@ func check(c Case) vk.Verdict {
 	issued := map[string]bool{}
 	cfg := csrf.Config{SingleUseToken: c.SingleUse, IdleTimeout: time.Duration(c.Idle) * time.Second, TrustedOrigins: trustedCfg,
 		KeyGenerator: func() string { ctr++; id := fmt.Sprintf("tok%d", ctr); issued[id] = true; return id }}
+	if c.OwnEH {
+		// the usual custom error handler: it writes the answer itself (and so returns nil)
+		cfg.ErrorHandler = func(ctx fiber.Ctx, _ error) error { return ctx.Status(fiber.StatusForbidden).SendString("denied by the application") }
+	}
 	var st *vk.Storage
 	var sessStore *session.Store
 	var sessMW fiber.Handler
@@ -480,6 +485,7 @@ func genCase(t *rapid.T) Case {
 	}
 	c.Conn = rapid.IntRange(0, 2).Draw(t, "conn") == 0
 	c.ProtoCaps = rapid.IntRange(0, 5).Draw(t, "protocaps") == 0
+	c.OwnEH = rapid.IntRange(0, 2).Draw(t, "owneh") == 0
 	if (c.Backend == "vk" || c.Backend == "vk-retain") && rapid.IntRange(0, 2).Draw(t, "faults") == 0 {
 		c.FailGet = rapid.SliceOfN(rapid.IntRange(1, 15), 0, 2).Draw(t, "failget")
 		c.FailDel = rapid.SliceOfN(rapid.IntRange(1, 4), 0, 1).Draw(t, "faildel")
